@@ -257,3 +257,220 @@ def truncated_zero_bound(ctx):
                                      f"x=truncnorm({(lo - loc) / sc!r},{(hi - loc) / sc!r},{loc!r},{sc!r}).rvs(400, random_state=np.random.RandomState(1))\n"
                                      f"m=TruncatedGaussian(minimum={lo!r}, maximum={hi!r}); m.fit(x); p=m._params\ns=(p['loc']+p['a']*p['scale'], p['loc']+p['b']*p['scale'])\nprint(s)\n"
                                      f"assert abs(s[0]-{lo!r})<1e-6 and abs(s[1]-{hi!r})<1e-6\n")})
+
+
+# ======================================================================================================================
+# bivariate copulas: HISTORY on one object and CONTAINER / memory layout of the argument (added after the second round
+# of seeded changes: cached normalisers, memoised roots, in-place logs on non-contiguous input)
+# ======================================================================================================================
+_BIV_TH = {'clayton': [(0.5, 4.0), (8.0, 1.0)], 'frank': [(9.0, 2.5), (-3.0, 5.0), (2.0, -6.0)], 'gumbel': [(1.3, 3.0), (4.0, 1.0), (1.0, 2.0)]}
+_BIV_METHODS = {'C06': ['cumulative_distribution'], 'C07': ['probability_density', 'log_probability_density', 'partial_derivative'],
+                'C08': ['percent_point', 'partial_derivative'], 'C09': ['sample', 'percent_point']}
+
+
+def _biv_tau(fam, th):
+    if fam == 'clayton':
+        return th / (th + 2.0)
+    if fam == 'gumbel':
+        return 1.0 - 1.0 / th
+    from scipy import integrate
+    d1 = integrate.quad(lambda t: t / np.expm1(t), 0.0, th)[0] / th
+    return 1.0 - 4.0 / th * (1.0 - d1)
+
+
+def _biv_new(fam, th, seed=5):
+    from copulas.bivariate import Bivariate
+    c = Bivariate(copula_type=fam, random_state=seed)
+    c.theta, c.tau = float(th), float(_biv_tau(fam, th))
+    return c
+
+
+def _biv_query(c, meth, X):
+    with np.errstate(all='ignore'):
+        if meth == 'sample':
+            c.set_random_state(11)
+            return np.asarray(c.sample(9), dtype=float)
+        if meth == 'percent_point':
+            return np.asarray(c.percent_point(X[:, 0].copy(), X[:, 1].copy()), dtype=float)
+        return np.asarray(getattr(c, meth)(X.copy()), dtype=float)
+
+
+def biv_history_replay(fam, th1, th2, meth, how):
+    """replay entry point: returns None or a description of the disagreement between the object with a history and a fresh one"""
+    g = np.array([0.15, 0.4, 0.5, 0.75, 0.9])
+    A, B = np.meshgrid(g, g[::-1])
+    X = np.column_stack([A.ravel(), B.ravel()])
+    o = _biv_new(fam, th1)
+    for m in ('cumulative_distribution', 'probability_density', 'log_probability_density', 'partial_derivative', 'percent_point', 'sample'):
+        try:
+            _biv_query(o, m, X)
+        except Exception:
+            pass
+    if how == 'assign':
+        o.theta, o.tau = float(th2), float(_biv_tau(fam, th2))
+        f = _biv_new(fam, th2)
+    else:
+        src = _biv_new(fam, th2, seed=3)
+        src.set_random_state(3)
+        D = np.asarray(src.sample(200), dtype=float)
+        o.fit(D)
+        from copulas.bivariate import Bivariate
+        f = Bivariate(copula_type=fam, random_state=5)
+        f.fit(D)
+        if not (o.theta == f.theta and o.tau == f.tau):
+            return f'after re-fit theta/tau = {o.theta}/{o.tau}, fresh fit gives {f.theta}/{f.tau}'
+    try:
+        a = _biv_query(o, meth, X)
+    except Exception as ex:
+        a = ex
+    try:
+        b = _biv_query(f, meth, X)
+    except Exception as ex:
+        b = ex
+    if isinstance(b, Exception):
+        return None if isinstance(a, Exception) and type(a) is type(b) else f'fresh object raises {type(b).__name__} but the object with a history returns'
+    if isinstance(a, Exception):
+        return f'object with a history raises {type(a).__name__}: {str(a)[:100]}; a fresh object with the same parameters returns values'
+    if a.shape != b.shape or not np.allclose(a, b, rtol=1e-9, atol=1e-12, equal_nan=True):
+        k = int(np.nanargmax(np.abs(a - b))) if a.shape == b.shape else 0
+        return (f'{meth} differs from a fresh object with the same parameters: {a.ravel()[k]!r} vs {b.ravel()[k]!r} at index {k} '
+                f'(max |diff| {float(np.nanmax(np.abs(a - b))) if a.shape == b.shape else "shape"})')
+    return None
+
+
+def biv_history(ctx, which):
+    """one copula object: parameters th1, every query once, THEN parameters th2 (by assignment, or by fit on data drawn at th2): each
+    query must equal that of a fresh object with the same parameters."""
+    for fam, pairs in _BIV_TH.items():
+        for th1, th2 in pairs:
+            for how in ('assign', 'fit'):
+                if how == 'fit' and (th2 in (1.0,) or (fam == 'frank' and th2 < 0 < th1 and False)):
+                    continue
+                for meth in _BIV_METHODS[which]:
+                    ctx.case(('history', fam, th1, th2, how, meth), {'family': fam, 'theta_before': th1, 'theta_after': th2, 'how': how, 'method': meth})
+                    try:
+                        why = biv_history_replay(fam, th1, th2, meth, how)
+                    except Exception as ex:
+                        why = f'raised {type(ex).__name__}: {str(ex)[:120]}'
+                    ctx.obligation(f'oracle:history:{fam}:{th1}->{th2}:{how}:{meth}', why is None, 'correspondence', why or '')
+                    if why:
+                        ctx.violation(f'search:history:{meth}:{fam}', f'{fam}: theta={th1}, all queries, then theta={th2} ({how}): {why}',
+                                      {'family': fam, 'theta_before': th1, 'theta_after': th2, 'how': how, 'method': meth,
+                                       'repro': ('from vf.extra_oracles import biv_history_replay\n'
+                                                 f'why = biv_history_replay({fam!r}, {th1!r}, {th2!r}, {meth!r}, {how!r})\nprint(why)\nassert why is None\n')})
+
+
+def biv_layout_replay(fam, th, meth, layout):
+    g = np.array([0.12, 0.3, 0.55, 0.8, 0.93, 0.42])
+    base = np.column_stack([g, g[::-1] * 0.9 + 0.03])
+    if layout == 'fortran':
+        X = np.asfortranarray(base)
+    elif layout == 'transposed':
+        X = np.array([base[:, 0], base[:, 1]]).T
+    elif layout == 'slice-of-wider':
+        W = np.column_stack([np.zeros(len(g)), base, np.ones(len(g))])
+        X = W[:, 1:3]
+    elif layout == 'reversed-view':
+        X = np.ascontiguousarray(base[:, ::-1])[:, ::-1]
+    elif layout == 'frame.to_numpy':
+        import pandas as pd
+        X = pd.DataFrame(base, columns=['u', 'v']).to_numpy()
+    else:
+        raise ValueError(layout)
+    ref_c = _biv_new(fam, th)
+    with np.errstate(all='ignore'):
+        ref = np.asarray(getattr(ref_c, meth)(np.ascontiguousarray(base.copy())), dtype=float)
+    c = _biv_new(fam, th)
+    before = np.array(X, copy=True)
+    try:
+        with np.errstate(all='ignore'):
+            r1 = np.asarray(getattr(c, meth)(X), dtype=float)
+            r2 = np.asarray(getattr(c, meth)(X), dtype=float)
+    except Exception as ex:
+        return f'raised {type(ex).__name__}: {str(ex)[:100]} on a {layout} argument (row-major argument with the same values returns)'
+    if not np.array_equal(np.asarray(X), before):
+        return f'the {layout} argument was modified in place: {np.asarray(X)[:2].tolist()} (was {before[:2].tolist()})'
+    if not np.allclose(r1, ref, rtol=1e-12, atol=0, equal_nan=True):
+        k = int(np.nanargmax(np.abs(r1 - ref)))
+        return f'{layout} argument gives {r1[k]!r}, the same values row-major give {ref[k]!r} (row {k})'
+    if not np.array_equal(r1, r2, equal_nan=True):
+        return f'second call with the same {layout} argument differs from the first'
+    return None
+
+
+def biv_layouts(ctx, which):
+    """the result of an evaluation method may depend only on the VALUES of its (n,2) argument, not on its memory layout; the argument is not modified."""
+    meths = [m for m in _BIV_METHODS[which] if m not in ('sample', 'percent_point')]
+    for fam, th in (('clayton', 2.0), ('frank', 4.0), ('frank', -3.0), ('gumbel', 2.5)):
+        for meth in meths:
+            for layout in ('fortran', 'transposed', 'slice-of-wider', 'reversed-view', 'frame.to_numpy'):
+                ctx.case(('layout', fam, th, meth, layout), {'family': fam, 'theta': th, 'method': meth, 'layout': layout})
+                try:
+                    why = biv_layout_replay(fam, th, meth, layout)
+                except Exception as ex:
+                    why = f'oracle raised {type(ex).__name__}: {str(ex)[:120]}'
+                ctx.obligation(f'oracle:layout:{fam}:{th}:{meth}:{layout}', why is None, 'correspondence', why or '')
+                if why:
+                    ctx.violation(f'search:layout:{meth}:{fam}', f'{fam} theta={th} {meth}: {why}',
+                                  {'family': fam, 'theta': th, 'method': meth, 'layout': layout,
+                                   'repro': ('from vf.extra_oracles import biv_layout_replay\n'
+                                             f'why = biv_layout_replay({fam!r}, {th!r}, {meth!r}, {layout!r})\nprint(why)\nassert why is None\n')})
+
+
+def biv_extra(ctx, which):
+    biv_history(ctx, which)
+    if which in ('C06', 'C07'):
+        biv_layouts(ctx, which)
+    if which == 'C09':
+        biv_sample_rosenblatt(ctx)
+
+
+def biv_sample_rosenblatt_replay(fam, th):
+    """sample(n) with the two uniform draws replaced by chosen vectors (small v, extreme c included): every row must be
+    (u, v) with partial_derivative(u, v) = c, the conditional-inverse construction (checked with a FRESH object's conditional CDF)."""
+    v = np.array([0.001, 0.01, 0.03, 0.05, 0.1, 0.12, 0.2, 0.35, 0.5, 0.65, 0.8, 0.9, 0.97, 0.99, 0.3, 0.7])
+    c = np.array([0.5, 0.9, 0.2, 0.05, 0.7, 0.35, 0.97, 0.02, 0.6, 0.4, 0.15, 0.85, 0.5, 0.25, 0.999, 0.001])
+    draws = [v.copy(), c.copy()]
+    o = _biv_new(fam, th)
+    orig = np.random.uniform
+
+    def fake(low=0.0, high=1.0, size=None):
+        return draws.pop(0) if draws else orig(low, high, size)
+    np.random.uniform = fake
+    try:
+        with np.errstate(all='ignore'):
+            S = np.asarray(o.sample(len(v)), dtype=float)
+    except Exception as ex:
+        if fam == 'gumbel' and 'different signs' in str(ex):
+            return None          # F17 (property C08)
+        return f'sample raised {type(ex).__name__}: {str(ex)[:100]}'
+    finally:
+        np.random.uniform = orig
+    if draws:
+        return f'sample consumed {2 - len(draws)} uniform draws instead of 2'
+    if S.shape != (len(v), 2) or not np.array_equal(S[:, 1], v):
+        return f'second column is not the first uniform draw (shape {S.shape})'
+    with np.errstate(all='ignore'):
+        back = np.asarray(_biv_new(fam, th).partial_derivative(S.copy()), dtype=float)
+    err = np.abs(back - c)
+    k = int(np.nanargmax(err))
+    if not np.all(np.isfinite(back)) or err[k] > 1e-6:
+        return (f'row {k}: u={S[k, 0]!r}, v={v[k]!r}: conditional CDF h(u,v)={back[k]!r} but the second uniform draw was c={c[k]!r} '
+                f'(|diff| {err[k]:.3g}); the first column is not the conditional inverse of c')
+    return None
+
+
+def biv_sample_rosenblatt(ctx):
+    for fam, ths in (('clayton', [0.5, 2.0, 8.0]), ('frank', [-12.0, -2.0, 3.0, 18.0]), ('gumbel', [1.0, 1.5, 3.0])):
+        for th in ths:
+            ctx.case(('sample-rosenblatt', fam, th), {'family': fam, 'theta': th, 'draws': 'chosen v in [0.001, 0.99], c in [0.001, 0.999]'})
+            try:
+                why = biv_sample_rosenblatt_replay(fam, th)
+            except Exception as ex:
+                why = f'oracle raised {type(ex).__name__}: {str(ex)[:120]}'
+            ctx.obligation(f'oracle:sample-rosenblatt:{fam}:{th}', why is None, 'correspondence', why or '')
+            if why:
+                ctx.violation(f'search:sample-not-conditional-inverse:{fam}', f'{fam} theta={th}: {why}',
+                              {'family': fam, 'theta': th,
+                               'repro': ('from vf.extra_oracles import biv_sample_rosenblatt_replay\n'
+                                         f'why = biv_sample_rosenblatt_replay({fam!r}, {th!r})\nprint(why)\nassert why is None\n')})
